@@ -186,6 +186,19 @@ CLAIMED = {
             "The oracle is the verdict itself; this is conformance of a composition, not a model.",
             "trusted: TLC (trivial clause), the harness's reproduction of the template's checker call",
             "recorded end-to-end runs judged by the TLA+ trace specification"),
+    "C19": ("5/C19, Appendix D",
+            "TLC checks the action property OperandsUnchanged of Session.tla (heap cells shared vs copied, hidden "
+            "generators) over all histories of <= 3 (4) constructions; the pinned variant of the model violates it.  "
+            "(G) every behaviour TLC enumerates is replayed and every existing object projected before/after each call. "
+            "(J) 63 pure operations on seeded arguments are executed in 3 (12) processes with different "
+            "PYTHONHASHSEED, different call orders (histories, incl. grammars that differ only in their start variable "
+            "meeting in one process) and logging on/off, twice in a row; TLC judges: arguments unchanged, same result "
+            "when called again, and - on events grouping the runs of one case - identical values / exactly equal "
+            "languages (FA, regexp) / equal languages up to 3 (grammars, PDAs) elsewhere.",
+            "trusted: TLC, abstraction.py (the projection defines 'observable content'), the reference semantics; "
+            "printers' label order is not constrained",
+            "TLA+ heap-level model (TLC, action property) + spec behaviours replayed + TLC trace validation across "
+            "processes"),
 }
 
 REASON_TODO = "check not built yet (work in progress; see DESIGN.md section 5)"
